@@ -460,5 +460,45 @@ func main() {
 		}
 		out.Check(idx, "(0%nat, 0%nat)")
 	}
+	// chunks of one reused writer that are held (queued for sending, as in replica/channel_family.go) while the writer
+	// compresses the next ones; decoded only after all of them were produced
+	for i := 0; i < cfg.N/20+2; i++ {
+		hw := compress.NewSnappyWriter()
+		k := r.Range(2, 5)
+		var srcs, held [][]byte
+		size := []int{40, 300, 600, 5000}[r.Intn(4)]
+		for j := 0; j < k; j++ {
+			n := size
+			switch r.Intn(3) {
+			case 0: // shrinking chunks
+				n = size - j*size/(k+1)
+			case 1:
+				n = size + r.Intn(size)
+			}
+			src := make([]byte, n)
+			for x := range src {
+				if r.Chance(60) {
+					src[x] = byte('a' + (x+j)%5)
+				} else {
+					src[x] = byte(r.U64())
+				}
+			}
+			_, _ = hw.Write(src)
+			_ = hw.Close()
+			srcs = append(srcs, src)
+			held = append(held, hw.Bytes()) // no copy: the chunk handed out belongs to the caller
+		}
+		idx := out.Case(map[string]interface{}{"kind": "snappy-held-chunks", "chunks": k, "size": size, "seq": i}, true)
+		out.Count("snappy-held-chunks")
+		hr := compress.NewSnappyReader()
+		for j := range held {
+			got, err := hr.Uncompress(held[j])
+			if err != nil || !bytes.Equal(got, srcs[j]) {
+				out.Violation(idx, "snappy-held-chunk", fmt.Sprintf("chunk %d of %d (%d bytes) does not decode to what was written into it: err %v", j, k, len(srcs[j]), err), nil)
+				break
+			}
+		}
+		out.Check(idx, "(0%nat, 0%nat)")
+	}
 	out.Finish()
 }
